@@ -108,6 +108,43 @@ func DefaultModels() map[string]Model {
 		r := And(BVCmp("bvule", pp.ln, sp.ln), x.bytesEqual(st, pre, p))
 		return retOne(st, boolV(x.define(st, "hasprefix", r)))
 	}
+	// ---- sync.Mutex / sync.RWMutex: ghost lock state per mutex (0 free, 1 write-held, 2 read-held) ----
+	lockOp := func(opName string, need func(cur *Term) *Term, next int64) Model {
+		return func(x *Exec, fr *Frame, st *State, args []Value, pos token.Pos) []Outcome {
+			loc := x.ptrLoc(args[0])
+			key := "lock:" + locKey(loc)
+			cur, ok := st.ghost[key]
+			if !ok {
+				cur = IntLit(0) // assumption: locks are free when a verified (public) operation starts
+			}
+			fc := fr.fc
+			if fc == nil {
+				fc = x.contracts[contractKey(fr.fn)]
+			}
+			if x.checkLocks {
+				x.oblige(fr, st, "lock", x.src(fr.fn, pos, opName)+":"+opName, pos, need(cur))
+			}
+			st.assume(need(cur))
+			st.ghost[key] = IntLit(next)
+			if st.written != nil {
+				if st.written.ghost == nil {
+					st.written.ghost = map[string]bool{}
+				}
+				st.written.ghost[key] = true
+			}
+			return []Outcome{{St: st, Kind: OutReturn}}
+		}
+	}
+	free := func(c *Term) *Term { return Eq(c, IntLit(0)) }
+	notW := func(c *Term) *Term { return Not(Eq(c, IntLit(1))) }
+	isW := func(c *Term) *Term { return Eq(c, IntLit(1)) }
+	isR := func(c *Term) *Term { return Eq(c, IntLit(2)) }
+	m["(*sync.Mutex).Lock"] = lockOp("Lock", free, 1)
+	m["(*sync.Mutex).Unlock"] = lockOp("Unlock", isW, 0)
+	m["(*sync.RWMutex).Lock"] = lockOp("Lock", free, 1)
+	m["(*sync.RWMutex).Unlock"] = lockOp("Unlock", isW, 0)
+	m["(*sync.RWMutex).RLock"] = lockOp("RLock", notW, 2)
+	m["(*sync.RWMutex).RUnlock"] = lockOp("RUnlock", isR, 0)
 	// ---- crypto/cipher.AEAD (GCM with the standard 12-byte nonce and 16-byte tag): assumed contract ----
 	m["(crypto/cipher.AEAD).NonceSize"] = func(x *Exec, fr *Frame, st *State, args []Value, pos token.Pos) []Outcome {
 		x.c.note("assumed: cipher.AEAD.NonceSize() == 12, Overhead() == 16 (standard GCM)")
@@ -248,6 +285,42 @@ func registerSpecBuiltins(x *Exec) {
 			return scalar(tInt, t)
 		}
 		return scalar(tInt, BVLit64(0, 64))
+	}
+	// lockfree(p) / lockheld(p): ghost state of the sync.Mutex / sync.RWMutex p points to, or of the
+	// (first) mutex field of the struct p points to
+	lockTerm := func(sc *specScope, n *ECall) *Term {
+		v := x.evalSpec0(sc, n.Args[0], nil)
+		loc := *x.ptrLoc(v)
+		if stt, ok := loc.T.Underlying().(*types.Struct); ok && !strings.HasPrefix(typeName(loc.T), "sync.") {
+			found := false
+			for i := 0; i < stt.NumFields(); i++ {
+				tn := typeName(stt.Field(i).Type())
+				if tn == "sync.Mutex" || tn == "sync.RWMutex" {
+					lo, hi := x.c.fieldRange(stt, i)
+					loc.Lo, loc.Hi, loc.T = loc.Lo+lo, loc.Lo+hi, stt.Field(i).Type()
+					found = true
+					break
+				}
+			}
+			if !found {
+				unsup("spec: no mutex field in %s", typeName(v.T))
+			}
+		}
+		if cur, ok := sc.st.ghost["lock:"+locKey(&loc)]; ok {
+			return cur
+		}
+		return IntLit(0)
+	}
+	x.specBuiltins["lockfree"] = func(sc *specScope, n *ECall) Value { return boolV(Eq(lockTerm(sc, n), IntLit(0))) }
+	x.specBuiltins["lockheld"] = func(sc *specScope, n *ECall) Value { return boolV(Eq(lockTerm(sc, n), IntLit(1))) }
+	// isnew(v): the object v denotes (pointee, backing array, map) was allocated during this call
+	x.specBuiltins["isnew"] = func(sc *specScope, n *ECall) Value {
+		v := x.evalSpec0(sc, n.Args[0], nil)
+		var cs []*Term
+		for _, r := range x.refsOf(v) {
+			cs = append(cs, IntCmp(">", r, sc.old.alloc))
+		}
+		return boolV(And(cs...))
 	}
 	// sameSlice(a, b): identical slice headers (same backing array, offset and length)
 	x.specBuiltins["sameSlice"] = func(sc *specScope, n *ECall) Value {
